@@ -157,7 +157,7 @@ def run(res, tier, seed):
     n = 12 if tier == "quick" else 150
     cases = []
     for _ in range(n):
-        lines, _ = conform.program(rng)
+        lines, _ = conform.program(rng, shapes=False)
         for cls, new, exp in inject(rng, lines):
             cases.append((cls, conform.text(new), exp, conform.text(lines)))
     inputs = [[("m.s", t)] for _, t, _, _ in cases]
